@@ -781,7 +781,11 @@ def _vectorize_func(func):
 
     # What should work once that Jax backend is fully supported
     signature = inspect.signature(func)
-    func_vec = numpy.vectorize(func)
+    # Without otypes, numpy.vectorize infers the output type from the result for the
+    # first row only. A first row that takes a branch returning an integer literal
+    # would then truncate the results of all other rows.
+    otypes = [float] if func.__annotations__.get("return") in (float, "float") else None
+    func_vec = numpy.vectorize(func, otypes=otypes)
 
     @functools.wraps(func)
     def wrapper_vectorize_func(*args, **kwargs):
